@@ -71,6 +71,15 @@ pub fn run(ctx: &mut Ctx) {
     }
     let tier = ctx.tier;
     let scale = if ctx.slow_tool { 0 } else { tier.pick(10u64, 1500u64) };
+    // values made by every public constructor of the one type that has several (TXT; some of them cache the encoded size)
+    if ctx.family_active("txt-ctor") {
+        let nt = if ctx.slow_tool { 30 } else { ctx.tier.pick(2_000u64, 100_000u64) };
+        for idx in 0..nt {
+            if ctx.take("txt-ctor", idx) {
+                super::c04::txt_ctor_case(ctx, idx, true);
+            }
+        }
+    }
 
     // ---- single-record packets: every typed variant x boundary-biased tuples -----------------
     let per_type = if ctx.slow_tool { 3 } else { 400 * scale };
